@@ -186,6 +186,7 @@ func behave(fname string, in *fnv1.RunFunctionRequest, maxIter int) *fnv1.RunFun
 		rsp.Conditions = []*fnv1.Condition{
 			{Type: "CustomX", Status: fnv1.Status_STATUS_CONDITION_FALSE, Reason: "Ry", Message: proto.String(fname), Target: fnv1.Target_TARGET_COMPOSITE_AND_CLAIM.Enum()},
 			{Type: "CustomY", Status: fnv1.Status_STATUS_CONDITION_UNKNOWN, Reason: "Ry2", Message: proto.String(fname)},
+			{Type: "CustomZ", Status: fnv1.Status_STATUS_CONDITION_UNKNOWN, Reason: "Rz", Message: proto.String(fname), Target: fnv1.Target_TARGET_COMPOSITE_AND_CLAIM.Enum()},
 		}
 	case "xr-status":
 		des().Composite = &fnv1.Resource{
